@@ -169,7 +169,8 @@ impl Prop for C04 {
             suspend: 3,
             attach: 3,
             mapping: 1,
-            child_remove: 1,
+            child_remove: 2,
+            heal: 2,
             parent_remove: 0,
             ca_delete: 0,
             pump: 14,
